@@ -139,6 +139,10 @@ def directed_values():
         {"nested": {"deeper": [d, {"again": d}]}}, [(1, 2), (1, 2)], ["s", "s", b"b", b"b"],
         [None, True, False, 0, 1], {True: 1, 2: None}, [{1, 2, 3}, {"a", "b"}],
         complex(1, 2), [range(3)], [slice(1, 2)], {"t": (d, d)},
+        # the pickler's batch size is 1000: one item, two items and many items past it
+        set(range(1001)), set(range(1002)), set(range(1500)), {"w%d" % i for i in range(1003)},
+        list(range(1001)), list(range(2003)), dict.fromkeys(range(1001)), {i: str(i) for i in range(2002)},
+        [set(range(1002)), {"k": set(range(1003))}],
     ]
     return out
 
